@@ -36,6 +36,10 @@ type Solver struct {
 	kind     string
 	pathsRun int
 	ufset    map[string]bool
+	pathLog  strings.Builder // path-level commands of the current scope (for portfolio fallback)
+	Fallbacks     int
+	FallbackSaved int
+	fallbackMs    int
 	ufEpoch  int
 }
 
@@ -107,6 +111,12 @@ func (s *Solver) restart() {
 	}
 }
 
+// sendPath sends path-level commands and records them for the fallback portfolio.
+func (s *Solver) sendPath(txt string) {
+	s.pathLog.WriteString(txt)
+	s.send(txt)
+}
+
 func (s *Solver) send(txt string) {
 	if s.log != nil {
 		s.log.WriteString(txt)
@@ -148,6 +158,7 @@ func (s *Solver) BeginPath() {
 		s.restart()
 	}
 	s.epoch++
+	s.pathLog.Reset()
 	s.send("(push 1)\n")
 }
 
@@ -206,7 +217,7 @@ func (s *Solver) Assert(ts *TermStore, t *Term) {
 	var sb strings.Builder
 	s.define(ts, t, &sb)
 	fmt.Fprintf(&sb, "(assert %s)\n", t.ref())
-	s.send(sb.String())
+	s.sendPath(sb.String())
 }
 
 // Check decides satisfiability of (path scope ∧ extra...). If wantModel and
@@ -221,10 +232,13 @@ func (s *Solver) Check(ts *TermStore, extra []*Term, wantModel bool, vars []*Ter
 			s.define(ts, v, &sb)
 		}
 	}
-	sb.WriteString("(push 1)\n")
+	s.pathLog.WriteString(sb.String())
+	var qb strings.Builder
 	for _, t := range extra {
-		fmt.Fprintf(&sb, "(assert %s)\n", t.ref())
+		fmt.Fprintf(&qb, "(assert %s)\n", t.ref())
 	}
+	sb.WriteString("(push 1)\n")
+	sb.WriteString(qb.String())
 	sb.WriteString("(check-sat)")
 	t0 := time.Now()
 	nerr := len(s.Errors)
@@ -243,6 +257,19 @@ func (s *Solver) Check(ts *TermStore, extra []*Term, wantModel bool, vars []*Ter
 		}
 	}
 	var model map[string]*big.Int
+	if res == Unknown && len(s.Errors) == nerr && s.kind != "cvc5" && os.Getenv("GSE_NOFALLBACK") == "" {
+		// portfolio: retry the same query one-shot on the other solvers
+		s.send("(pop 1)\n")
+		s.Fallbacks++
+		r2, m2 := s.fallback(qb.String(), wantModel, vars)
+		s.Time += time.Since(t0)
+		if r2 == Unknown {
+			s.Unknowns++
+		} else {
+			s.FallbackSaved++
+		}
+		return r2, m2
+	}
 	if res == Sat && wantModel && len(vars) > 0 {
 		var q strings.Builder
 		q.WriteString("(get-value (")
@@ -347,4 +374,62 @@ func tokenize(s string) []string {
 	}
 	flush()
 	return toks
+}
+
+// fallback re-runs a query that the incremental solver could not decide on
+// fresh one-shot processes of the other installed solvers.
+func (s *Solver) fallback(query string, wantModel bool, vars []*Term) (SatResult, map[string]*big.Int) {
+	var txt strings.Builder
+	txt.WriteString("(set-option :produce-models true)\n")
+	txt.WriteString(s.pathLog.String())
+	txt.WriteString(query)
+	txt.WriteString("(check-sat)\n")
+	if wantModel && len(vars) > 0 {
+		txt.WriteString("(get-value (")
+		for _, v := range vars {
+			txt.WriteString(v.ref() + " ")
+		}
+		txt.WriteString("))\n")
+	}
+	ms := s.fallbackMs
+	if ms == 0 {
+		ms = 60000
+	}
+	type cand struct {
+		name string
+		args []string
+		pre  string
+	}
+	cands := []cand{
+		{"z3-new", []string{"-in", "-smt2", fmt.Sprintf("-T:%d", ms/1000)}, ""},
+		{"cvc5", []string{"--lang=smt2", "--produce-models", fmt.Sprintf("--tlimit=%d", ms)}, "(set-logic ALL)\n"},
+		{"z3", []string{"-in", "-smt2", fmt.Sprintf("-T:%d", ms/1000)}, ""},
+	}
+	if s.kind == "z3-new" {
+		cands[0], cands[2] = cands[2], cands[0]
+	}
+	for _, c := range cands[:2] {
+		cmd := exec.Command(c.name, c.args...)
+		cmd.Stdin = strings.NewReader(c.pre + txt.String())
+		out, _ := cmd.CombinedOutput()
+		o := string(out)
+		if strings.Contains(o, "(error") {
+			continue
+		}
+		lines := strings.Split(o, "\n")
+		for i, l := range lines {
+			l = strings.TrimSpace(l)
+			if l == "unsat" {
+				return Unsat, nil
+			}
+			if l == "sat" {
+				var model map[string]*big.Int
+				if wantModel {
+					model = parseModel(strings.Join(lines[i+1:], " "))
+				}
+				return Sat, model
+			}
+		}
+	}
+	return Unknown, nil
 }
